@@ -284,7 +284,28 @@ func c12BlockOracle(c C12Case) (inconclusive, discarded bool, err error) {
 	aa.IndentationLevel = 1
 	text := formatted.String()
 	aa.IndentationLevel = 0
-	return c12Compare(strings.TrimRight(text, "\n"), strings.Join(canon, "\n"))
+	inc, disc, err := c12Compare(strings.TrimRight(text, "\n"), strings.Join(canon, "\n"))
+	if inc || disc || err != nil {
+		return inc, disc, err
+	}
+	// and the block as merged and formatted still states what the rules it was made from state
+	// (not judged when several pivot_root rules overlap: there the reference is order-sensitive)
+	pivots := 0
+	var before []string
+	for _, r := range c.L {
+		if r.Kind == "pivot_root" {
+			pivots++
+		}
+		before = append(before, canonicalPrint(r))
+	}
+	if pivots > 1 {
+		return false, false, nil
+	}
+	inc, disc, err = c12Compare(strings.TrimRight(text, "\n"), strings.Join(before, "\n"))
+	if err != nil {
+		err = fmt.Errorf("after Merge + Sort + Format: %v", err)
+	}
+	return inc, false, err
 }
 
 func TestC12_Rules(t *testing.T) {
